@@ -158,6 +158,15 @@ def check_conformation(name, conf, viol, counts, classes):
                     viol.append({"cls": "ion-charge-not-configured-value", "msg": "%s: ion %s (residue %s) acts with charge %+g, configured %+g" % (
                         name, d[2], d[5][4], pq, formal)})
                     pq = formal
+            if not ion and partners and abs(d[3]) > EPS:
+                # a Coulomb term needs a charge on the other side: the partner's type (or residue type) carries a
+                # configured charge - a formally neutral ligand atom (a bound chlorine, an ether oxygen) has none
+                from .. import util
+                qtab = util.parse_cfg()["charge"]
+                counts["coulomb_partner_charges_checked"] = counts.get("coulomb_partner_charges_checked", 0) + 1
+                if not any(qtab.get(p["type"]) or qtab.get(p["rtype"]) for p in partners):
+                    viol.append({"cls": "coulomb-from-uncharged-group", "msg": "%s: %s has Coulomb determinant %+.4f from %s (group type %s), for which no charge is configured" % (
+                        name, g["label"], d[3], d[2], "|".join(sorted({p["type"] for p in partners})))})
             bound = c["coulomb_max"] * (abs(pq) if ion else 1.0)
             if abs(d[3]) > bound + EPS:
                 viol.append({"cls": "determinant-out-of-bounds", "msg": "%s: %s Coulomb determinant %+.4f from %s exceeds %.3f" % (name, g["label"], d[3], d[2], bound)})
